@@ -354,6 +354,91 @@ class Scripted:
         return Scripted.script.pop(0)
 
 
+class NeedMore(Exception):
+    def __init__(self, n):
+        self.n = n
+
+
+class Unsupported(Exception):
+    pass
+
+
+class Exploring:
+    """Stand-in for random.Random that replays a prefix of integer outcomes and, at the first call beyond the
+    prefix, reports the size of the range asked for (NeedMore). Supports the integer-valued calls (randint, randrange,
+    choice, getrandbits); anything else (random(), uniform(), shuffle ...) makes the exploration inconclusive."""
+    script: list = []
+    sizes: list = []
+
+    def __init__(self, seed=None):
+        pass
+
+    def _draw(self, n):
+        if n <= 0:
+            raise ValueError("empty range for randrange()")
+        if not Exploring.script:
+            raise NeedMore(n)
+        Exploring.sizes.append(n)
+        return Exploring.script.pop(0)
+
+    def randint(self, a, b):
+        return a + self._draw(b - a + 1)
+
+    def randrange(self, start, stop=None, step=1):
+        if stop is None:
+            start, stop = 0, start
+        n = len(range(start, stop, step))
+        return start + step * self._draw(n)
+
+    def choice(self, seq):
+        return seq[self._draw(len(seq))]
+
+    def getrandbits(self, k):
+        return self._draw(1 << k)
+
+    def __getattr__(self, name):
+        raise Unsupported(name)
+
+
+def explore_outcomes(ddef, k, cap=4000):
+    """All outcomes of DFA.random_word(k) over every resolution of its integer random draws:
+    list of (outcome, probability) or None when the exploration is inconclusive / too large."""
+    import automata.fa.dfa as dfamod
+    old = dfamod.Random
+    dfamod.Random = Exploring
+    out, pending = [], [[]]
+    try:
+        while pending:
+            p = pending.pop()
+            Exploring.script, Exploring.sizes = list(p), []
+            try:
+                r = outcome(lambda: mk_dfa(ddef).random_word(k))
+            except NeedMore as e:          # raised through outcome()? outcome catches BaseException subclasses only of Exception
+                r = ("more", e.n)
+            if r[0] == "err" and r[2] == "NeedMore":
+                # outcome() swallowed it: rerun without the wrapper to get the range size
+                Exploring.script, Exploring.sizes = list(p), []
+                try:
+                    mk_dfa(ddef).random_word(k)
+                    return None
+                except NeedMore as e:
+                    r = ("more", e.n)
+            if r[0] == "err" and r[2] == "Unsupported":
+                return None
+            if r[0] == "more":
+                pending.extend(p + [c] for c in range(r[1]))
+                if len(pending) + len(out) > cap:
+                    return None
+                continue
+            pr = Fraction(1)
+            for n in Exploring.sizes:
+                pr /= n
+            out.append((r, pr))
+        return out
+    finally:
+        dfamod.Random = old
+
+
 def impl_scripted(d, k, draws):
     import automata.fa.dfa as dfamod
     old = dfamod.Random
@@ -377,16 +462,23 @@ def check_random(ctx, ddef, jobs, tag):
         problems = []
         if got[0] == "ok":
             w = sy.word(got[1])
-            if mres != ("ok", w):
-                problems.append(f"random_word({k}, seed={seed}) = {got[1]!r}, model {mres} for draws {draws} (totals {totals})")
+            mirror_same = mres == ("ok", w)
+            if not mirror_same:
+                # the seed -> word mapping is not fixed by the property (only membership and uniformity are):
+                # a different but correct sampling scheme is a structural difference from the mirror model
+                ctx.structural += 1
+                ctx.tally("random_word_mapping_differs_from_mirror_model")
             if len(got[1]) != k or not d.accepts_input(got[1]):
                 problems.append(f"random_word({k}, seed={seed}) = {got[1]!r} is not an accepted word of length {k}")
+            if mres[0] == "err":
+                problems.append(f"random_word({k}, seed={seed}) = {got[1]!r} but there is no accepted word of length {k} (model {mres})")
         else:
+            mirror_same = True
             if mres != ("err", got[1]):
                 problems.append(f"random_word({k}, seed={seed}) raised {got[2]}, model {mres}")
         # the ranges the draws were taken from: totals[i] must be the number of words of the
         # remaining length from the state reached by the result's prefix (implementation's own count)
-        if got[0] == "ok" and not problems:
+        if got[0] == "ok" and not problems and mirror_same:
             q = d.initial_state
             for i, c in enumerate(got[1]):
                 sub = dict(ddef)
@@ -431,26 +523,50 @@ def check_uniform(ctx, ddef, k, tag, cap=4000):
             return False
         prefixes = nxt
     words = [sy.word(w) for w in mk_dfa(ddef).words_of_length(k)]
-    mass = {}
     problems = []
+    # (a) what the property states, decided on the implementation alone: over EVERY resolution of its integer
+    #     random draws the result is an accepted word of length k and every such word has probability 1/count
+    outs = explore_outcomes(ddef, k, cap)
+    if outs is None:
+        ctx.tally("uniform_exploration_inconclusive")
+    else:
+        mass = {}
+        for r, pr in outs:
+            if r[0] == "ok":
+                if len(r[1]) != k or not d.accepts_input(r[1]):
+                    problems.append(f"some random outcome returns {r[1]!r}, not an accepted word of length {k}")
+                mass[tuple(sy.word(r[1]))] = mass.get(tuple(sy.word(r[1])), 0) + pr
+            elif not (r[1] == enc.VALUEERR and not words):
+                problems.append(f"some random outcome raises {r[2]}" + ("" if words else " instead of ValueError"))
+        if words:
+            want = {tuple(w): Fraction(1, len(words)) for w in words}
+            if mass != want and not problems:
+                problems.append(f"probability mass per word {sorted(mass.items())[:6]} is not uniform over the {len(words)} accepted words")
+        elif any(r[0] == "ok" for r, _ in outs):
+            problems.append(f"no word of length {k} is accepted but random_word returns one")
+    # (b) the mirror model (code's unranking scheme): same word and same ranges for every draw vector - a difference
+    #     here alone is structural (another correct sampling scheme), not a violation
+    mirror_diff = 0
+    mmass = {}
     for p, mres, totals in done:
         got, log, left = impl_scripted(mk_dfa(ddef), k, p)
         if got[0] == "ok":
-            if mres != ("ok", sy.word(got[1])):
-                problems.append(f"draws {p}: implementation returns {got[1]!r}, model {mres}")
-            if log != [(0, t - 1) for t in totals] or left:
-                problems.append(f"draws {p}: implementation asked randint for {log}, model totals {totals}")
+            if mres != ("ok", sy.word(got[1])) or log != [(0, t - 1) for t in totals] or left:
+                mirror_diff += 1
         elif mres != ("err", got[1]):
-            problems.append(f"draws {p}: implementation raised {got[2]}, model {mres}")
+            mirror_diff += 1
         if mres[0] == "ok":
             pr = Fraction(1)
             for t in totals:
                 pr /= t
-            mass[tuple(mres[1])] = mass.get(tuple(mres[1]), 0) + pr
+            mmass[tuple(mres[1])] = mmass.get(tuple(mres[1]), 0) + pr
+    if mirror_diff:
+        ctx.structural += 1
+        ctx.tally("uniform_mirror_model_differs")
+    # the model itself must be uniform (ties the harness to the proved statement)
     if words:
-        want = {tuple(w): Fraction(1, len(words)) for w in words}
-        if mass != want:
-            problems.append(f"probability mass per word {sorted(mass.items())} is not uniform over the {len(words)} accepted words")
+        if mmass != {tuple(w): Fraction(1, len(words)) for w in words}:
+            problems.append("the MODEL's probability mass is not uniform (model/harness problem)")
     elif not (len(done) == 1 and done[0][1] == ("err", enc.VALUEERR)):
         problems.append(f"no word of length {k} but the model does not answer ValueError: {done[:2]}")
     ctx.tally("uniform_enumerations")
@@ -460,7 +576,7 @@ def check_uniform(ctx, ddef, k, tag, cap=4000):
     if problems:
         ctx.violation("random_word over all draw vectors: " + "; ".join(problems[:4])[:1200],
                       {"kind": "uniform", "def": repr(ddef), "k": k, "tag": tag, "problems": problems[:10]},
-                      confirmed=any("implementation returns" in p or "asked randint" in p for p in problems))
+                      confirmed=any("random outcome" in p or "not uniform over" in p or "returns one" in p for p in problems))
     return True
 
 
@@ -487,9 +603,36 @@ def exhaustive_defs(nstates, sigma):
                        initial_state=0, final_states={q for q in range(nstates) if fin[q]}, allow_partial=True)
 
 
+def huge_count_probe(ctx):
+    """Lengths whose word counts exceed any machine number (2**1100 words): random_word must still return an
+    accepted word of that length, and count_words_of_length must be the exact integer."""
+    from automata.fa.dfa import DFA
+    probes = [
+        ("universal{a,b}", DFA.universal_language({"a", "b"}), 1100, 2 ** 1100),
+        ("even_number_of_a", DFA(states={0, 1}, input_symbols={"a", "b"},
+                                 transitions={0: {"a": 1, "b": 0}, 1: {"a": 0, "b": 1}}, initial_state=0,
+                                 final_states={0}), 1080, 2 ** 1079),
+    ]
+    for name, d, k, want in probes:
+        c = outcome(lambda: d.count_words_of_length(k))
+        if c[:2] != ("ok", want):
+            ctx.violation(f"count_words_of_length({k}) on {name} is not the exact count 2**{want.bit_length() - 1}: {str(c)[:80]}",
+                          {"kind": "huge", "probe": name, "k": k})
+        for seed in (1, 2):
+            r = outcome(lambda: d.random_word(k, seed=seed))
+            ok = r[0] == "ok" and len(r[1]) == k and d.accepts_input(r[1])
+            ctx.tally("huge_count_probe")
+            ctx.case(("huge", name, seed), True, sample={"probe": name, "k": k, "seed": seed, "ok": ok})
+            if not ok:
+                ctx.violation(f"random_word({k}, seed={seed}) on {name} (2**{want.bit_length() - 1} words) "
+                              f"does not return an accepted word of length {k}: {str(r)[:120]}",
+                              {"kind": "huge", "probe": name, "k": k, "seed": seed})
+
+
 def run(ctx):
     ctx.rule = RULE
     rng = ctx.rng
+    huge_count_probe(ctx)
     for name, ddef in corner_defs():
         check_dfa(ctx, ddef, name)
         check_random(ctx, ddef, [(k, 7) for k in range(0, 4)], name)
@@ -525,6 +668,10 @@ def run(ctx):
 
 
 def replay(ctx, case):
+    if case.get("kind") == "huge":
+        huge_count_probe(ctx)
+        print("replay:", "VIOLATION reproduced" if ctx.violations else "no disagreement")
+        return
     kind = case.get("kind")
     ddef = load_def(case["def"])
     if kind == "dfa":
